@@ -60,6 +60,7 @@ type Obligation struct {
 	Note    string
 	Expect  string // "unsat" normally; "sat" for cover checks
 	Splits  []*Term
+	scanFail bool
 	ex      *Exec
 }
 
